@@ -36,10 +36,12 @@ def check(ctx: Ctx) -> str:
             pp = [ast.unparse(k.value) for k in cs[0].keywords if k.arg == "postprocess"]
             ctx.check(pp == ["None if case_sensitive else ignore_case"], f"{fname}:case", f"filters:{fname}", "case post-processing", f"{fname} must compare case-insensitively exactly when case_sensitive is false (postprocess={pp})", fi.loc(cs[0]))
     ic = repo.func("filters:ignore_case")
-    s = ast.unparse(ic.node)
-    ctx.check("isinstance(value, str)" in s and "value.lower()" in s and ast.unparse(astq.returns(ic.node)[-1].value) == "value", "ignore_case", "filters:ignore_case", "lower strings only", "ignore_case must lower strings and leave other values alone", ic.loc())
+    s = ic.ntext
+    ic_rets = {ast.unparse(r_.value): astq.guard_atoms(ic.nnode, r_) for r_ in astq.returns(ic.nnode) if r_.value is not None}
+    low = [g_ for v_, g_ in ic_rets.items() if "value.lower()" in v_]
+    ctx.check(len(low) == 1 and ("isinstance(value, str)", True) in low[0] and ("isinstance(value, str)", False) in ic_rets.get("value", []), "ignore_case", "filters:ignore_case", "lower strings only", "ignore_case must lower strings and leave other values alone", ic.loc())
     ds = repo.func("filters:do_dictsort")
-    s = ast.unparse(ds.node)
+    s = ds.ntext  # a local naming value.items() is inlined
     lowered = [a for a in ast.walk(ds.node) if isinstance(a, ast.Assign) and isinstance(a.value, ast.Call) and astq.callee(a.value) == "ignore_case" and len(a.value.args) == 1 and ast.unparse(a.targets[0]) == ast.unparse(a.value.args[0])]
     low_ok = len(lowered) == 1 and astq.guard_atoms(ds.node, lowered[0]) == [("case_sensitive", False)]
     ctx.check(low_ok and "sorted(value.items(), key=sort_func, reverse=reverse)" in s, "dictsort", "filters:do_dictsort", "dictsort key", "dictsort must sort items by key or value, lowering strings unless case_sensitive", ds.loc())
@@ -61,11 +63,15 @@ def check(ctx: Ctx) -> str:
     ctx.check(fill_ok, "slice:fill", "filters:sync_do_slice", "fill rule", "slices without an extra item are filled when fill_with is given", sl.loc())
     ba = repo.func("filters:do_batch")
     s = ast.unparse(ba.node)
-    ctx.check("if len(tmp) == linecount:" in s and "yield tmp" in s and "tmp = []" in s, "batch:full", "filters:do_batch", "emit full batches", "batch must emit a batch when it holds linecount items", ba.loc())
-    aug = [n for n in ast.walk(ba.node) if isinstance(n, ast.AugAssign) and ast.unparse(n.target) == "tmp"]
-    ok = len(aug) == 1 and isinstance(aug[0].value, ast.BinOp) and isinstance(aug[0].value.op, ast.Mult) and ast.unparse(aug[0].value.left) == "[fill_with]" and astq.linear(aug[0].value.right) == {"linecount": 1, "len(tmp)": -1}
-    ctx.check(ok, "batch:fill", "filters:do_batch", "fill count", "the last batch must be filled with linecount - len(tmp) items", ba.loc())
-    ctx.check("if fill_with is not None and len(tmp) < linecount:" in s, "batch:fill-guard", "filters:do_batch", "fill guard", "filling happens only with fill_with given and a short last batch", ba.loc())
+    # the current batch is whatever list the function yields (its name does not matter)
+    ys_ = [y for y in ast.walk(ba.node) if isinstance(y, ast.Yield) and isinstance(y.value, ast.Name)]
+    bv = ys_[0].value.id if ys_ else "tmp"  # type: ignore[union-attr]
+    full = [y for y in ys_ if (f"len({bv}) == linecount", True) in astq.guard_atoms(ba.node, y)]
+    ctx.check(len(full) == 1 and f"{bv} = []" in s, "batch:full", "filters:do_batch", "emit full batches", "batch must emit a batch when it holds linecount items", ba.loc())
+    aug = [n for n in ast.walk(ba.node) if isinstance(n, ast.AugAssign) and ast.unparse(n.target) == bv]
+    ok = len(aug) == 1 and isinstance(aug[0].value, ast.BinOp) and isinstance(aug[0].value.op, ast.Mult) and ast.unparse(aug[0].value.left) == "[fill_with]" and astq.linear(aug[0].value.right) == {"linecount": 1, f"len({bv})": -1}
+    ctx.check(ok, "batch:fill", "filters:do_batch", "fill count", f"the last batch must be filled with linecount - len({bv}) items", ba.loc())
+    ctx.check(bool(aug) and sorted(a_ for a_ in astq.guard_atoms(ba.node, aug[0]) if a_[0] != bv) == sorted([("fill_with is None", False), (f"len({bv}) < linecount", True)]), "batch:fill-guard", "filters:do_batch", "fill guard", "filling happens only with fill_with given and a short last batch", ba.loc())
 
     ctx.rule("R7", "empty input: first / last / min / max return environment.undefined; unique keeps first occurrences via a seen set; sum starts from start; map/select/reject do nothing for an empty input")
     for fname, exc in (("sync_do_first", "StopIteration"), ("do_first", "StopAsyncIteration"), ("do_last", "StopIteration"), ("_min_or_max", "StopIteration")):
